@@ -59,6 +59,9 @@ type C10Case struct {
 	ErrLine     int  `json:"err_line,omitempty"`
 	Gzip       bool      `json:"gzip,omitempty"`
 	MaxDocSize int       `json:"max_doc_size"`
+	// SlowMs: the body arrives slowly: this much simulated time passes between chunks (the request time is the time of
+	// receipt, whatever the clock says when a line is parsed)
+	SlowMs     int64     `json:"slow_ms,omitempty"`
 	DriftMs    int64     `json:"drift_ms"`
 	FutureMs   int64     `json:"future_drift_ms"`
 	StoreFails bool      `json:"store_fails,omitempty"`
@@ -164,11 +167,18 @@ type chunkReader struct {
 	errDone  bool
 	closed   bool
 	yield  bool // concurrent phase: every Read is a scheduling point
+	// slow upload: simulated time passes before a Read that is not the first (at most six times per body)
+	slow  time.Duration
+	slept int
 }
 
 func (r *chunkReader) Read(p []byte) (int, error) {
 	if r.yield {
 		verifsim.Yield(0)
+	}
+	if r.slow > 0 && r.pos > 0 && r.slept < 6 {
+		r.slept++
+		simWait(context.Background(), r.slow)
 	}
 	if r.errDone {
 		return 0, io.EOF
@@ -514,6 +524,7 @@ func RunC10(t *testing.T, c *C10Case) *RunResult {
 			rd := &chunkReader{data: wire, rng: verifsim.NewSplitMix(cs), mode: cs, errAt: c.ErrorAt, withData: c.ErrWithData}
 			if !c.Gzip {
 				rd.errAt = c.effErrAt(wire)
+				rd.slow = time.Duration(c.SlowMs) * time.Millisecond
 			}
 			if c.Gzip {
 				rd.errAt = 0
@@ -795,6 +806,9 @@ func GenC10(seed uint64, thorough bool, maxDoc int) *C10Case {
 		c.DriftMs, c.FutureMs = 86400000, 86400000
 	}
 	c.Gzip = r.Bool(0.25)
+	if rs := verifsim.NewSplitMix(seed ^ 0x510e).Split("c10-slow"); rs.Bool(0.15) {
+		c.SlowMs = []int64{300, 1500}[rs.Intn(2)]
+	}
 	c.StoreFails = r.Bool(0.1)
 	n := r.Range(0, 9)
 	badness := []float64{0, 0.1, 0.3}[r.Intn(3)]
